@@ -68,6 +68,9 @@ def closeSteps : List Lbl :=
 
 example : ∃ s, run false St.init cutThenClose = some s ∧ s.tcp = .sepEnq ∧ s.buf = cut7 ∧ s.prx = .idle := by
   refine ⟨_, rfl, ?_⟩; decide +kernel
+/-- … and it is `Reachable` in the sense of the theorems (no failing send in the history), with the close sequence begun -/
+example : ∃ s, Reachable s ∧ s.tcp.closing = true ∧ s.rxErr = false ∧ s.tcp ≠ .done :=
+  ⟨_, ⟨cutThenClose, by decide, rfl⟩, by decide +kernel, by decide +kernel, by decide +kernel⟩
 example : ∃ s s', run false St.init cutThenClose = some s ∧ run false s closeSteps = some s' ∧ quiescent false s' = true
     ∧ s'.tcp = .done ∧ s'.conn = false ∧ s'.buf = [] ∧ s'.prx = .exited ∧ closeSteps.length ≤ mu s := by
   refine ⟨_, _, rfl, rfl, ?_⟩; decide +kernel
@@ -201,7 +204,15 @@ open SecsModel.Model.TcpStop in
 /-- **witness, server, second window**: `disable()` right after `enable()`, between the first test of the stop flag and the first `select`:
 `select` on the closed socket raises, the exception is logged, `select_result` is unbound, the thread dies with `UnboundLocalError` -/
 theorem server_disable_hang_first_select :
-    ∃ s, Server.run false Server.St.init [.thr true, .thr true, .app, .app, .app, .thr true] = some s
+    ∃ s, Server.run false Server.St.init [.thr true, .thr true, .app, .app, .app, .thr false] = some s
+      ∧ s.thr = .dead ∧ s.rcv = .off ∧ Server.stuck s = true := by
+  refine ⟨_, rfl, ?_⟩; decide +kernel
+
+open SecsModel.Model.TcpStop in
+/-- **witness, server, idle** (no peer at all): `enable()`, the server thread waits in `select`; `disable()` sets the flag and closes the
+listening socket; the `select` returns the closed socket as readable, `accept()` raises `EBADF`, the thread dies — the flag is never reset -/
+theorem server_disable_hang_idle :
+    ∃ s, Server.run false Server.St.init [.thr true, .thr true, .app, .app, .app, .thr true, .thr true] = some s
       ∧ s.thr = .dead ∧ s.rcv = .off ∧ Server.stuck s = true := by
   refine ⟨_, rfl, ?_⟩; decide +kernel
 
